@@ -195,9 +195,7 @@ func workerMain() {
 			}
 			r := w.runCase(&c)
 			enc.Encode(r)
-			if rd.Buffered() == 0 {
-				wr.Flush()
-			}
+			wr.Flush() // every answer is flushed at once: a later fatal error must be attributed to the right case
 		}
 		if err != nil {
 			break
